@@ -37,7 +37,7 @@ fn rule_offset() -> BoxedStrategy<i32> {
     prop_oneof![4 => (-12i32..=14).prop_map(|h| h * 3600), 2 => (-47i32..=56).prop_map(|q| q * 900), 1 => -80_000i32..=80_000].boxed()
 }
 fn rule_name() -> BoxedStrategy<String> {
-    proptest::sample::select(vec!["AAA", "EST", "EDT", "CET", "CEST", "NZST", "NZDT", "+03", "-0330", "ABCDEF", "A-B+C", "+01"]).prop_map(String::from).boxed()
+    proptest::sample::select(vec!["AAA", "EST", "EDT", "CET", "CEST", "NZST", "NZDT", "+03", "-0330", "ABCDEF", "A-B+C", "+01", "ABCDEFG", "+001234"]).prop_map(String::from).boxed()
 }
 /// alternate-time rule whose transitions lie well inside the calendar year
 pub fn alt_rule(extended: bool) -> BoxedStrategy<Rule> {
